@@ -100,6 +100,13 @@ def code_for_expr(expr: Any) -> cst.CSTNode:
       )
     elif isinstance(value, (list, tuple)):
       original = value
+      if type(value) not in (list, tuple):  # pylint: disable=unidiomatic-typecheck
+        # E.g. a NamedTuple: a list / tuple display would silently lose the type.
+        raise TypeError(
+            f"Failed to map children of {original!r}, because "
+            f"{type(original)} subclasses list or tuple. Please replace these "
+            "objects in your input config, likely with fdl.Config nodes."
+        )
       value = state.map_children(value)
       if isinstance(value, list):
         cst_cls = cst.List
@@ -117,6 +124,13 @@ def code_for_expr(expr: Any) -> cst.CSTNode:
         elements.append(cst.Element(sub_value))
       return cst_cls(elements)
     elif isinstance(value, dict):
+      if type(value) is not dict:  # pylint: disable=unidiomatic-typecheck
+        # E.g. a defaultdict: a dict display would silently lose the type.
+        raise TypeError(
+            f"Cannot generate code for {value!r}: {type(value)} subclasses "
+            "dict. Please replace these objects in your input config, likely "
+            "with fdl.Config nodes."
+        )
       elements = []
       for key, sub_value in value.items():
         key_node = state.call(key, daglish.Key(f"__key_{key}"))
